@@ -127,7 +127,8 @@ def classify(prog, before: bytes, after: bytes, why):
     return None
 
 
-LAYOUTS = [{}, {"nonascii": True}, {"tabs": True}, {"nonascii": True, "tabs": True}, {"no_final_newline": True}, {"crlf": True}, {"nonascii": True, "per_test": 3}]
+LAYOUTS = [{}, {"nonascii": True}, {"tabs": True}, {"nonascii": True, "tabs": True}, {"no_final_newline": True}, {"crlf": True}, {"nonascii": True, "per_test": 3},
+           {"mixed_eol": 2}, {"mixed_eol": 3, "first_crlf": True}]
 
 
 def gen_case(rng, i):
@@ -150,19 +151,29 @@ def run_case(prog):
     elif prog["setup"] == "fmtcmd":
         kw["format_command"] = "/venv/bin/python -m black -q -"
     clean = False
-    if prog.get("clean") and not prog["layout"].get("crlf"):
+    if (prog.get("clean") or prog["layout"].get("mixed_eol")) and not prog["layout"].get("crlf"):
         try:
             import black
             src = black.format_str(src, mode=black.FileMode())
             clean = True
         except Exception:  # noqa
             pass
+    m = prog["layout"].get("mixed_eol")
+    if m:
+        # mixed line endings (black does not consider such a file clean: it would normalise them to the ending of the first line)
+        lines = src.split("\n")
+        first = prog["layout"].get("first_crlf")
+        src = "\n".join(ln + ("\r" if (i % m == (0 if first else 1)) and i < len(lines) - 1 else "") for i, ln in enumerate(lines))
     before = src.encode("utf-8")
     res = driver.run_inproc({"test_a.py": before}, prog["flags"], **kw)
     after = res["files"]["test_a.py"]
     import black
     try:
-        is_clean = black.format_str(before.decode(), mode=black.FileMode()) == before.decode().replace("\r\n", "\n")
+        # formatter-clean as the black command line sees it: universal newlines in, the ending of the first line out
+        text = before.decode()
+        nl = "\r\n" if text.split("\n", 1)[0].endswith("\r") else "\n"
+        uni = text.replace("\r\n", "\n")
+        is_clean = "\r" not in uni and black.format_str(uni, mode=black.FileMode()).replace("\n", nl) == text
     except Exception:  # noqa
         is_clean = False
     whole = prog["setup"] == "fmtcmd" or (prog["setup"] == "black" and is_clean)
